@@ -108,6 +108,31 @@ class SymStruct:
         return tuple(out)
 
 
+class _SymStructObj:
+    """struct.Struct(fmt) as seen by instrumented modules (precompiled formats)."""
+
+    def __init__(self, fmt):
+        self.format = fmt
+        self.size = _struct.calcsize(fmt)
+        self._real = _struct.Struct(fmt)
+
+    def pack(self, *args):
+        return SymStruct.pack(self.format, *args)
+
+    def unpack(self, data):
+        return SymStruct.unpack(self.format, data)
+
+    def unpack_from(self, data, offset=0):
+        return SymStruct.unpack(self.format, data[offset: offset + self.size])
+
+    def __getattr__(self, name):
+        raise Unmodelled(f"struct.Struct.{name}")
+
+
+SymStruct.Struct = _SymStructObj
+SymStruct.unpack_from = staticmethod(lambda fmt, data, offset=0: SymStruct.unpack(fmt, data[offset: offset + _struct.calcsize(fmt)]))
+
+
 # ---------------------------------------------------------------- ctypes
 class _CVal:
     def __init__(self, value):
@@ -147,10 +172,19 @@ def s_isinstance(x, cls):
             return any(isinstance(o, cl) for o in x.options[:1])
         if isinstance(x, SEnum):
             return any(isinstance(o, cl) for o in x.members[:1])
+    from .values import SByteArray
+
+    if isinstance(x, SByteArray):
+        cl = cls if isinstance(cls, tuple) else (cls,)
+        return bytearray in cl or object in cl
     return isinstance(x, cls)
 
 
 def s_len(x):
+    from .values import SByteArray
+
+    if isinstance(x, SByteArray) and x.rope is not None:
+        x = x.frozen()
     if isinstance(x, (SBlob, SRope)):
         return x.length
     return len(x)
@@ -334,7 +368,23 @@ def s_abs(x):
     return abs(x)
 
 
+def s_bytearray(x=b"", *a):
+    from .values import SByteArray
+
+    if a:
+        return SByteArray(bytearray(x, *a))
+    if isinstance(x, SInt):
+        x = core.concretize(x, limit=70000)
+    if isinstance(x, int):
+        return SByteArray([0] * x)
+    return SByteArray(SByteArray._items(x))
+
+
 def s_bytes(x=b"", *a):
+    from .values import SByteArray
+
+    if isinstance(x, SByteArray):
+        return x.frozen()
     if isinstance(x, (SBytes, SBlob, SRope)):
         return x
     if isinstance(x, (list, tuple)) and any(isinstance(i, SInt) for i in x):
@@ -638,7 +688,72 @@ def s_int_from_bytes(data, byteorder="big", *, signed=False):
     return v
 
 
+_SHADOW_TYPES = None
+
+
+def _has_shadow(x, depth=0):
+    global _SHADOW_TYPES
+    if _SHADOW_TYPES is None:
+        from .values import SBlob, SRope
+
+        _SHADOW_TYPES = (SInt, SBool, SStr, SBytes, SChoice, SEnum, SBlob, SRope)
+    if isinstance(x, _SHADOW_TYPES):
+        return True
+    if depth < 3 and isinstance(x, (tuple, list, frozenset)):
+        return any(_has_shadow(y, depth + 1) for y in x)
+    return False
+
+
+def sx_cached(real_decorator):
+    """functools.cache / lru_cache as seen by instrumented modules: calls whose arguments hold a
+    symbolic value bypass the memo table (a symbolic value has no hash; the table is keyed by
+    concrete values only), every other call goes through the real cache."""
+    import functools
+
+    def deco(fn):
+        cached = real_decorator(fn)
+
+        @functools.wraps(fn)
+        def wrapper(*a, **k):
+            if any(_has_shadow(x) for x in a) or any(_has_shadow(x) for x in k.values()):
+                return fn(*a, **k)
+            return cached(*a, **k)
+
+        wrapper.cache_clear = cached.cache_clear
+        wrapper.cache_info = cached.cache_info
+        wrapper.__wrapped__ = fn
+        return wrapper
+
+    return deco
+
+
+def patched_functools():
+    """Context manager: functools.cache / lru_cache replaced while an instrumented module body runs."""
+    import contextlib
+    import functools
+
+    @contextlib.contextmanager
+    def cm():
+        real_cache, real_lru = functools.cache, functools.lru_cache
+
+        def lru(maxsize=128, typed=False):
+            if callable(maxsize) and isinstance(typed, bool):
+                return sx_cached(real_lru(128, typed))(maxsize)
+            return sx_cached(real_lru(maxsize, typed))
+
+        functools.cache = sx_cached(real_cache)
+        functools.lru_cache = lru
+        try:
+            yield
+        finally:
+            functools.cache, functools.lru_cache = real_cache, real_lru
+
+    return cm()
+
+
 HELPERS = {
+    "_sx_bytearray": s_bytearray,
+    "_sx_mod_struct": SymStruct,
     "_sx_int_from_bytes": s_int_from_bytes,
     "_sx_open": s_open,
     "_sx_contains": s_contains,
@@ -666,6 +781,7 @@ HELPERS = {
 }
 
 BUILTIN_MAP = {
+    "bytearray": "_sx_bytearray",
     "open": "_sx_open",
     "isinstance": "_sx_isinstance",
     "len": "_sx_len",
